@@ -232,6 +232,9 @@ func ReachableFromEdges(fn *ssa.Function, from EdgeSet, sink ssa.Instruction, sa
 	}
 	var start []*ssa.BasicBlock
 	for e := range from {
+		if sameIter && avoid[e] {
+			continue // the edge itself starts the next iteration (`continue`)
+		}
 		start = append(start, e.To)
 	}
 	if len(start) == 0 {
